@@ -44,6 +44,21 @@ impl Constructor {
 
 impl Compile for Constructor {
     fn compile(&self, state: &CompilationState) -> Result<Vec<CompiledItem>, anyhow::Error> {
+        let (mut early, mut late) = self.compile_parts(state)?;
+        early.append(&mut late);
+        Ok(early)
+    }
+}
+
+impl Constructor {
+    /// The code of the class function that concerns the constructor, in two parts: making the
+    /// constructor's function value - which the class emits BEFORE it reserves its fields, so
+    /// that a bare name in the constructor's body is a variable of the enclosing scopes and
+    /// never the field of the same name - and building the object and calling the constructor.
+    pub(crate) fn compile_parts(
+        &self,
+        state: &CompilationState,
+    ) -> Result<(Vec<CompiledItem>, Vec<CompiledItem>), anyhow::Error> {
         let symbolic_id = self.symbolic_id();
         let mut args = self.parameters.compile(state)?;
         let mut body = self.body.compile(state)?;
@@ -88,11 +103,17 @@ impl Compile for Constructor {
 
         let constructor_register = state.poll_temporary_register();
         let obj_register = state.poll_temporary_register();
+
+        let early = vec![
+            make_function_instruction,
+            instruction!(store_fast constructor_register),
+        ];
+
+        // (like the methods, the constructor's function value is a variable of the frame that
+        // becomes the object)
         let mut result = vec![
             instruction!(make_object),
             instruction!(store_fast obj_register),
-            make_function_instruction,
-            instruction!(store_fast constructor_register),
             instruction!(load_fast obj_register),
         ];
 
@@ -107,7 +128,7 @@ impl Compile for Constructor {
             instruction!(load_fast obj_register),
         ]);
 
-        Ok(result)
+        Ok((early, result))
     }
 }
 
